@@ -1,0 +1,71 @@
+//go:build verif
+
+package oci
+
+// Contracts for gocv (see /verif/DESIGN.md). Comment-only file.
+
+//@ package oci
+//@ import ocispec "github.com/opencontainers/image-spec/specs-go/v1"
+//@ import digest "github.com/opencontainers/go-digest"
+//@ import descriptor "oras.land/oras-go/v2/internal/descriptor"
+//@ import resolver "oras.land/oras-go/v2/internal/resolver"
+//@ import graph "oras.land/oras-go/v2/internal/graph"
+//@ import registry "oras.land/oras-go/v2/registry"
+//@ import manifestutil "oras.land/oras-go/v2/internal/manifestutil"
+//@ import content "oras.land/oras-go/v2/content"
+//@ import set "oras.land/oras-go/v2/internal/container/set"
+//@
+//@ ghost blobCount(st *Storage) int
+//@ ghost indexVersion(s *Store) int
+//@
+//@ pure sameContent(a ocispec.Descriptor, b ocispec.Descriptor) bool = a.Size == b.Size && a.Digest == b.Digest && a.MediaType == b.MediaType
+//@ pure taggedNow(s *Store, d ocispec.Descriptor) bool = exists r string :: r != d.Digest && r in s.tagResolver.index && s.tagResolver.index[r].Digest == d.Digest
+//@ pure storeRI(s *Store) bool = s != nil && s.tagResolver != nil && alive(s.tagResolver) && resolverRI(s.tagResolver) && s.graph != nil && alive(s.graph) && graphRI(s.graph) && s.storage != nil && alive(s.storage)
+//@
+//@ func (*Storage).Delete
+//@   trusted
+//@   ensures [blob-count] result == nil ==> old(blobCount(s)) > 0 && blobCount(s) == old(blobCount(s)) - 1
+//@   ensures [blob-count] result != nil ==> blobCount(s) == old(blobCount(s))
+//@   ensures [blob-count] forall o *Storage :: o != s ==> blobCount(o) == old(blobCount(o))
+//@   modifies ghost.blobCount, alloc
+//@
+//@ func (*Store).isTagged
+//@   requires [ri] s != nil && s.tagResolver != nil && alive(s.tagResolver) && resolverRI(s.tagResolver)
+//@   ensures [C09:exact-sound] result ==> taggedNow(s, desc)
+//@   ensures [C09:exact-complete] taggedNow(s, desc) ==> result
+//@   modifies alloc, new map[string]unit, new map[string]ocispec.Descriptor
+//@
+//@ func (*Store).delete
+//@   requires [ri] storeRI(s)
+//@   loop 0 invariant [kept] s.tagResolver == old(s.tagResolver) && s.graph == old(s.graph) && s.storage == old(s.storage) && s.AutoSaveIndex == old(s.AutoSaveIndex) && storeRI(s)
+//@   loop 0 invariant [snapshot] resolvers != nil && resolvers != s.tagResolver.index && (forall r string :: (r in resolvers) == old(r in s.tagResolver.index) && (r in resolvers ==> resolvers[r] == old(s.tagResolver.index[r])))
+//@   loop 0 invariant [C09:untag-only-target] forall r string :: (r in s.tagResolver.index) == (old(r in s.tagResolver.index) && !(r in $visited && sameContent(old(s.tagResolver.index[r]), target)))
+//@   loop 0 invariant [values] forall r string :: r in s.tagResolver.index ==> s.tagResolver.index[r] == old(s.tagResolver.index[r])
+//@   loop 0 invariant [graph-kept] (forall k descriptor.Descriptor :: (k in s.graph.nodes) == old(k in s.graph.nodes))
+//@   loop 0 invariant [counts] blobCount(s.storage) == old(blobCount(s.storage)) && indexVersion(s) == old(indexVersion(s))
+//@   call (*Storage).Delete requires [C10:index-saved-before-blob-removed] !(untagged && s.AutoSaveIndex) || indexVersion(s) > old(indexVersion(s))
+//@   call (*Storage).Delete requires [C07,C10:graph-entry-removed-before-blob] !(K(target) in s.graph.nodes)
+//@   ensures [C09:untag-only-target] forall r string :: (r in s.tagResolver.index) == (old(r in s.tagResolver.index) && !sameContent(old(s.tagResolver.index[r]), target))
+//@   ensures [C09:other-tags-kept] forall r string :: r in s.tagResolver.index ==> s.tagResolver.index[r] == old(s.tagResolver.index[r])
+//@   ensures [C09:ri] storeRI(s) && s.tagResolver == old(s.tagResolver) && s.graph == old(s.graph) && s.storage == old(s.storage)
+//@   ensures [C09:blob-count] result1 == nil ==> old(blobCount(s.storage)) > 0 && blobCount(s.storage) == old(blobCount(s.storage)) - 1
+//@   ensures [C07:removed] result1 == nil ==> !(K(target) in s.graph.nodes)
+//@   modifies map[string]ocispec.Descriptor, map[digest.Digest]set.Set[string], map[string]unit, map[descriptor.Descriptor]ocispec.Descriptor, map[descriptor.Descriptor]set.Set[descriptor.Descriptor], map[descriptor.Descriptor]unit, elems[ocispec.Descriptor], ghost.blobCount, ghost.indexVersion, ocispec.Index.Manifests, new map[string]string, alloc
+//@
+//@ func (*Store).saveIndex
+//@   trusted
+//@   ensures result == nil ==> indexVersion(s) == old(indexVersion(s)) + 1
+//@   ensures result != nil ==> indexVersion(s) == old(indexVersion(s))
+//@   modifies ghost.indexVersion, alloc, ocispec.Index.Manifests, elems[ocispec.Descriptor], new map[string]string, new map[string]unit, new map[string]ocispec.Descriptor
+//@
+//@ func registry.Referrers
+//@   trusted
+//@   modifies alloc, elems[ocispec.Descriptor], elems[byte], new map[string]string
+//@
+//@ func (*Store).Delete
+//@   requires [ri] storeRI(s)
+//@   loop 0 invariant [kept] storeRI(s) && s.tagResolver == old(s.tagResolver) && s.graph == old(s.graph) && s.storage == old(s.storage) && s.AutoGC == old(s.AutoGC)
+//@   loop 0 decreases [C09:terminates] blobCount(s.storage)
+//@   loop 1 invariant [kept] storeRI(s) && s.tagResolver == old(s.tagResolver) && s.graph == old(s.graph) && s.storage == old(s.storage) && s.AutoGC == old(s.AutoGC)
+//@   loop 2 invariant [kept] storeRI(s) && s.tagResolver == old(s.tagResolver) && s.graph == old(s.graph) && s.storage == old(s.storage) && s.AutoGC == old(s.AutoGC)
+//@   call append requires [C09:enqueue-untagged-only] forall i int :: 0 <= i && i < len(args.arg1) ==> !taggedNow(s, args.arg1[i])
